@@ -236,10 +236,6 @@ structure WSt where
   sets : List (Nat × Nat × Nat) := []        -- `sqfs_frag_table_set(index, location, size)` in order
   effs : List Eff := []
 
-/-- the on-disk size word of a stored block -/
-def sizeWord (b : Blk) : Nat :=
-  if hasFlag b.flags blkIsCompressed then b.data.length else b.data.length ||| (1 <<< 24)
-
 /-- the inode updates of `process_completed_block` for block `b` written at `loc` -/
 def blockEffs (b : Blk) (loc : Nat) : List Eff :=
   (if hasFlag b.flags blkIsSparse then mkEff b.inode (.sparse b.index b.data.length)
